@@ -1598,6 +1598,39 @@ end Goml.Graph
 
 EXTRACTORS += [gen_package_ids]
 
+
+def c16_gen_local_name():
+    """C16: the two predicates behind the orphan rule and the inherent-impl locality check (typer/toplevel.rs).
+    Their bodies are asserted verbatim (modulo whitespace): ownership of `Pkg::Item` is decided by comparing the
+    package segment with the current package — not by any other test on the text of the name — and only a
+    struct / enum / generic application of one is a local nominal type."""
+    src = _norm(open(os.path.join(REPO, "crates/compiler/src/typer/toplevel.rs")).read())
+    m = re.search(r'fn is_local_name\(current_package: &str, name: &str\) -> bool \{ '
+                  r'if let Some\(\(package, _\)\) = name\.split_once\("::"\) \{ package == current_package \} '
+                  r'else \{ ((?:current_package == "\w+"(?: \|\| )?)+) \} \}', src)
+    if not m:
+        raise Exception("toplevel.rs: is_local_name no longer compares the package segment of `Pkg::Item` with the current package")
+    unq = re.findall(r'current_package == "(\w+)"', m.group(1))
+    n = re.search(r'fn is_local_nominal_type\(current_package: &str, ty: &tast::Ty\) -> bool \{ match ty \{ '
+                  r'tast::Ty::TStruct \{ name \} \| tast::Ty::TEnum \{ name \} => \{ is_local_name\(current_package, name\) \} '
+                  r'tast::Ty::TApp \{ ty, \.\. \} => is_local_nominal_type\(current_package, ty\), _ => false, \} \}', src)
+    if not n:
+        raise Exception("toplevel.rs: is_local_nominal_type is no longer `struct | enum | application of one`")
+    uses = len(re.findall(r"is_local_nominal_type\(&env\.package, &for_ty\)", src))
+    if uses != 2 or "let trait_local = is_local_name(&env.package, &trait_name_str);" not in src:
+        raise Exception("toplevel.rs: the orphan rule / inherent-impl check no longer call is_local_name / is_local_nominal_type as expected")
+    items = ", ".join('"%s"' % u for u in unq)
+    write_if_changed("LocalName.lean", f"""/- GENERATED by tools/extract.py (c16_gen_local_name) from typer/toplevel.rs — do not edit -/
+namespace Goml.Vis
+/-- `is_local_name`: a qualified name `Pkg::Item` is local iff `Pkg` **equals** the current package -/
+def localByPackageSegmentEquality : Bool := true
+/-- packages whose own items carry no package prefix (an unqualified name is local to them) -/
+def unqualifiedLocalTo : List String := [{items}]
+end Goml.Vis
+""")
+
+EXTRACTORS += [c16_gen_local_name]
+
 def c08_gen_lift_consts():
     """C08: naming constants and shape anchors of lift.rs (closure env struct / field / apply function names)"""
     lift = _norm(open(os.path.join(REPO, "crates/compiler/src/lift.rs")).read())
